@@ -21,7 +21,7 @@ var c12Engines = []string{"memkv", "badger", "tikv", "memkv+m", "badger+m", "tik
 func init() {
 	Registry["C12"] = &Prop{
 		Plan: func(tier string) Plan {
-			return Plan{Level: "exploration", NCases: pick(tier, 120, 9600), Batch: 2, CaseTimeout: 180,
+			return Plan{Level: "exploration", NCases: pick(tier, 120, 9600), Batch: 2, CaseTimeout: 90,
 				Rule: "one case = one PRNG sequential script of 40-120 requests (create/update/delete with correct, stale and zero expectations on existing, missing, deleted and compacted keys, two of the seven keys being Event records written with the one-hour ttl; Get/List/Count at latest and old revisions; Compact) executed step by step on memkv, Badger, TiKV mock, the three metrics-wrapped variants, a TiKV mock pre-split into regions and a memkv reporting several partitions, all started at the same revision, plus one watcher from revision 0 per engine. " +
 					"oracle = pairwise equality of normalised transcripts against the memkv run (error texts are not compared, only error vs response). " +
 					"non-trivial = script with >=1 failed condition on a missing key, >=1 write on a deleted key, >=1 compaction followed by a read below it; distinct by script digest",
